@@ -23,11 +23,39 @@ def fioStep (toks : List String) : String :=
     | some set, some file => showSegs (readAll (readStrip set) (file.length + 1) file)
     | _, _ => "bad-op"
   | ["rw", a, b] => match parseHex a, parseHex b with
-    | some a, some b => s!"w=0 r=0 {toHex a} a=0 r=0 {toHex (a ++ b)}"
+    | some a, some b =>
+      -- write a, read back, append b, read back, in an environment where nothing fails
+      let w := strFileWrite (quietWrite a) false [] a
+      let f1 := w.2.getD []
+      let r1 := strFileRead (quietRead f1)
+      let ap := strFileWrite (quietWrite b) true f1 b
+      let f2 := ap.2.getD []
+      let r2 := strFileRead (quietRead f2)
+      s!"w={w.1} r={r1.1} {toHex (r1.2.getD [])} a={ap.1} r={r2.1} {toHex (r2.2.getD [])}"
     | _, _ => "bad-op"
   | ["fault", k] =>
-    -- every injected fault (incl. `shrunk-<from>-<to>`: fewer bytes than the sampled size) must be reported as failure
-    if ["full-short", "full-long", "missing", "dir", "wdir"].contains k || k.startsWith "shrunk-" then "rc=-1" else "bad-op"
+    -- the environment of each injected fault; the model decides the return value
+    let rc : Option Int :=
+      if k == "full-short" then      -- /dev/full: ten bytes are buffered, the flush at close fails
+        some (strFileWrite { opens := true, accepts := 10, closeOk := false } false [] (List.replicate 10 120)).1
+      else if k == "full-long" then  -- the buffer is flushed while writing: fwrite comes back short
+        some (strFileWrite { opens := true, accepts := 4096, closeOk := false } false [] (List.replicate 200000 120)).1
+      else if k == "missing" then some (strFileRead { statSize := none, opens := false, stream := [] }).1
+      else if k == "dir" then        -- a directory can be opened for reading; reading it delivers nothing
+        some (strFileRead { statSize := some 4096, opens := true, stream := [] }).1
+      else if k == "wdir" then some (strFileWrite { opens := false, accepts := 0, closeOk := false } false [] []).1
+      else if k.startsWith "shrunk-" then
+        match (k.drop 7).toString.splitOn "-" with
+        | [f, t] => match f.toNat?, t.toNat? with
+          | some f, some t =>     -- f bytes when the size is sampled, t bytes when the file is read
+            let r := strFileRead { statSize := some f, opens := true, stream := (List.replicate t 121) }
+            if r.1 == 0 then none else some r.1
+          | _, _ => none
+        | _ => none
+      else none
+    match rc with
+    | some v => s!"rc={v}"
+    | none => "bad-op"
   | _ => "bad-op"
 
 end Gpc.Driver
